@@ -220,4 +220,59 @@ theorem reach_nxt {init : St} (hr : Reach (step cfg) init s) {t : Nat} (hen : s.
   refine Reach.step (t := { tid := t }) (ev := (stepAt cfg s t (s.pc t)).2) hr ?_
   simp [step, hen, nxt]
 
+
+/-! ## wake-ups: the loop thread enters the wake callback within a bounded number of its steps -/
+
+/-- how far the loop thread is from entering the wake callback -/
+def stage2 : Pc → Nat
+  | .wkLock => 1
+  | .clearup => 2
+  | .poll => 3
+  | .woken => 3
+  | .fwait _ => 3
+  | .runStart => 4
+  | .chkExit => 5
+  | .wkSet => 6
+  | .wkChk => 7
+  | .eWake => 8
+  | .eSetE => 9
+  | .eSetW => 9
+  | .eRead => 10
+  | .wkUnlock => 11
+  | .wkAdd => 12
+  | _ => 0
+
+def mu2 (cfg : Cfg) (s : St) : Nat := stage2 (s.pc cfg.lt) + s.queue.length
+
+set_option maxHeartbeats 1000000 in
+/-- with the other threads finished, a running loop with an unserved wake-up request can take a
+step, and that step enters the wake callback (`unserved` is reset), or leaves the loop (an exit is
+being carried out), or strictly decreases `mu2` with the request still pending -/
+theorem wake_decreases (ht : Typ cfg s) (hs : Safe cfg s) (hod : OthersDone cfg s)
+    (hrun : gone (s.pc cfg.lt) = false) (hreq : s.unserved > 0) (hn : cfg.lt < cfg.n) :
+    s.enabled cfg cfg.lt = true ∧
+    ((nxt cfg s cfg.lt).unserved = 0 ∨ gone ((nxt cfg s cfg.lt).pc cfg.lt) = true ∨
+     (mu2 cfg (nxt cfg s cfg.lt) < mu2 cfg s ∧ (nxt cfg s cfg.lt).unserved > 0 ∧
+      gone ((nxt cfg s cfg.lt).pc cfg.lt) = false)) := by
+  have hcp := hs.wake hreq hrun
+  have hevh := ev_in_harvest ht hs
+  have hmtx := mtx_of_othersDone ht hod
+  have hpark := hs.park
+  have hblk := hs.blk
+  have hthr := ht.loopthr
+  have hst := ht.started
+  have hev := @advPc_ev (harvest cfg s)
+  have hacp := advPc_cases (harvest cfg s)
+  have hacp2 := advPc_cases s.plan
+  clear ht hs hod
+  unfold mu2 nxt St.enabled
+  generalize hq : s.pc cfg.lt = q at *
+  cases q <;> simp only [stepAt, idlePc, isLoopPc, isExitPc, gone, hn, decide_true, Bool.true_and] at *
+  all_goals (try (exfalso; simp at hthr; done))
+  all_goals (repeat' split)
+  all_goals (try simp only [pollNow, advance, exitReturn, evWrite, signal, release])
+  all_goals (try dsimp only)
+  all_goals (try simp only [upd_same, stage2])
+  all_goals grind [stage2, gone, upd, WAKE, EXIT]
+
 end MgProof.C14
